@@ -1,5 +1,5 @@
 // PRNG ("RN"): one generator object; the system source is scripted through TRNG SYS (h_trng.cpp),
-// the storage callbacks through the arguments of SAVE / LOAD.
+// the storage callbacks and the storage geometry through the arguments of SAVE / LOAD.
 #include "hx.h"
 #include <ascon/random.h>
 #include <ascon/storage.h>
@@ -9,16 +9,21 @@ extern unsigned long g_trng_sys_calls;
 static ascon_random_state_t *g_rng = 0;
 static unsigned long g_calls_base = 0;
 
-struct Script { int rr; std::vector<unsigned char> rdata; int wr; std::string written; bool wrote; };
+// Every call of a storage callback is logged with the arguments it receives (offset into the region, byte count, erase
+// request, for write the bytes) - the log is part of the operation's result line and must equal the model's prediction
+// (Model/Prngm.v: cb_call; of a write longer than the 32-byte seed only the first 32 bytes are printed, then +MORE).  BADPTR: the callback was not handed the caller's descriptor; NULLDATA: a write without bytes.
+struct Script { int rr; std::vector<unsigned char> rdata; int wr; std::string log; unsigned ncalls; const ascon_storage_t *expect; };
 static Script g_sc;
 static int st_read(const ascon_storage_t *st, size_t offset, unsigned char *data, size_t size) {
-    (void)st; (void)offset;
-    if (g_sc.rr > 0) for (size_t i = 0; i < size && i < (size_t)g_sc.rr; ++i) data[i] = i < g_sc.rdata.size() ? g_sc.rdata[i] : 0;
+    g_sc.ncalls++;
+    g_sc.log += " R:" + std::to_string(offset) + ":" + std::to_string(size) + (st == g_sc.expect ? "" : ":BADPTR") + (data ? "" : ":NULLDATA");
+    if (g_sc.rr > 0 && data) for (size_t i = 0; i < size && i < (size_t)g_sc.rr; ++i) data[i] = i < g_sc.rdata.size() ? g_sc.rdata[i] : 0;
     return g_sc.rr;
 }
 static int st_write(const ascon_storage_t *st, size_t offset, const unsigned char *data, size_t size, int erase) {
-    (void)st; (void)offset; (void)erase;
-    g_sc.written = hex(data, size); g_sc.wrote = true;
+    g_sc.ncalls++;
+    g_sc.log += " W:" + std::to_string(offset) + ":" + std::to_string(size) + ":" + (erase ? "1" : "0") + ":" + (data ? hex(data, size < 32 ? size : 32) + (size > 32 ? "+MORE" : "") : std::string("NULLDATA"))
+              + (st == g_sc.expect ? "" : ":BADPTR");
     return g_sc.wr;
 }
 
@@ -44,17 +49,26 @@ static std::string op_rn(const Toks &t) {
     if (op == "FETCH") { size_t n = (size_t)atoi(t[2].c_str()); Buf out(n); ascon_random_fetch(g_rng, out.p, n); return out.hx(); }
     if (op == "FEED") { Buf d(unhex(t[2]), true); ascon_random_feed(g_rng, d.p, d.n); return "OK"; }
     if (op == "SAVE" || op == "LOAD") {
+        // RN SAVE|LOAD NULL   or   RN SAVE|LOAD <size> <read result> <read data> <write result> [<page_size> <erase_size> <address> <partial_writes>]
         ascon_storage_t st; memset(&st, 0, sizeof(st));
         const ascon_storage_t *sp = 0;
-        g_sc.wrote = false; g_sc.written = "";
+        g_sc.log = ""; g_sc.ncalls = 0; g_sc.expect = 0;
         if (t[2] != "NULL") {
-            st.page_size = 1; st.erase_size = 0; st.address = 0; st.size = (size_t)atoi(t[2].c_str()); st.partial_writes = 1;
+            st.page_size = 1; st.erase_size = 0; st.address = 0; st.size = (size_t)atol(t[2].c_str()); st.partial_writes = 1;
+            if (t.size() >= 10) {
+                st.page_size = (size_t)atol(t[6].c_str()); st.erase_size = (size_t)atol(t[7].c_str());
+                st.address = (size_t)atol(t[8].c_str()); st.partial_writes = atoi(t[9].c_str());
+            }
             st.read = st_read; st.write = st_write;
             g_sc.rr = atoi(t[3].c_str()); g_sc.rdata = unhex(t[4]); g_sc.wr = atoi(t[5].c_str());
-            sp = &st;
+            sp = &st; g_sc.expect = sp;
         }
+        ascon_storage_t before = st;
         int r = op == "SAVE" ? ascon_random_save_seed(g_rng, sp) : ascon_random_load_seed(g_rng, sp);
-        return std::to_string(r) + " " + (g_sc.wrote ? g_sc.written : "NOWRITE");
+        // the descriptor is const for the library
+        bool same = before.page_size == st.page_size && before.erase_size == st.erase_size && before.address == st.address && before.size == st.size
+                    && before.partial_writes == st.partial_writes && before.read == st.read && before.write == st.write;
+        return std::to_string(r) + " calls=" + std::to_string(g_sc.ncalls) + g_sc.log + (same ? "" : " DESCRIPTOR-CHANGED");
     }
     if (op == "STATE") {
         unsigned char b[40];
